@@ -140,7 +140,7 @@ func (b *Box) getOrCreateMessagesByTopic(topic []byte) *storedMessages {
 
 	messages, exists = b.pendingMessages[string(topic)]
 	if !exists {
-		messages = &storedMessages{messageCountPerSender: make(map[uint16]int), logger: b.Logger}
+		messages = &storedMessages{messageCountPerSender: make(map[uint16]int), logger: b.Logger, lastUsed: time.Now()}
 	}
 
 	b.pendingMessages[string(topic)] = messages
@@ -250,7 +250,7 @@ func (b *Box) mark(now uint64, epochsAfterWhichWeGC time.Duration) []string {
 	defer b.lock.RUnlock()
 
 	for topic, messages := range b.pendingMessages {
-		if float64(messages.lastUsedTime().Unix())+b.GCExpire.Seconds() < float64(now) {
+		if time.Since(messages.lastUsedTime()) > b.GCExpire {
 			topics2Delete = append(topics2Delete, topic)
 		}
 	}
